@@ -546,6 +546,56 @@ def check_eof(P, R):
     R.floor(rule, "negative returns of prchunk_fill", n, 2)
 
 
+def check_shortread(P, R):
+    """RF-shortread: read() may hand out fewer bytes than were asked for at any time (pipes, sockets, terminals) without the input
+    having ended; the end of the input is a count of 0 and nothing else.  So the count that read() returned may be tested against 0
+    only: a comparison with the size requested (or any other quantity) makes what the filters print depend on how the bytes happened
+    to be cut into reads."""
+    rule = "RF-shortread"
+    tu = P.tu("prchunk.c")
+    n = 0
+    for fn in tu.funclist:
+        if getattr(fn, "body", None) is None:
+            continue
+        cnt = set()
+        for x in fn.walk():
+            if x.get("k") == "BinaryOperator" and x.get("op") == "=":
+                r = strip(x["c"][1])
+                if r is not None and r.get("k") == "CallExpr" and r.get("callee") == "read":
+                    l = strip(x["c"][0])
+                    if l is not None and l.get("n"):
+                        cnt.add(l.get("n"))
+        if not cnt:
+            continue
+        R.saw(fn)
+        for x in fn.walk():
+            if x.get("k") == "BinaryOperator" and x.get("op") in ("<", "<=", ">", ">=", "==", "!="):
+                a, b = strip(x["c"][0]), strip(x["c"][1])
+                # an embedded assignment `(nrd = read(...)) > 0` counts as the count itself
+                def is_cnt(e):
+                    if e is None:
+                        return False
+                    if e.get("k") == "DeclRefExpr" and e.get("n") in cnt:
+                        return True
+                    if e.get("k") == "BinaryOperator" and e.get("op") == "=":
+                        l = strip(e["c"][0])
+                        return l is not None and l.get("n") in cnt
+                    return False
+                for me, other in ((a, b), (b, a)):
+                    if is_cnt(me):
+                        n += 1
+                        c = const_of(other)
+                        op = x.get("op") if me is a else {"<": ">", "<=": ">=", ">": "<", ">=": "<=", "==": "==", "!=": "!="}[x.get("op")]
+                        same = c is not None and len({eval("v %s c" % op, {"v": v, "c": c}) for v in (1, 2, 3, 4095, 4096, 4097, 1 << 20, 1 << 30)}) == 1
+                        if same:
+                            R.ob(rule, "%s line %s: the count read() returned is tested for its sign / for 0 only: the test answers alike for every positive count (`%s`)" % (fn.name, x.get("l"), expr_text(x)), True)
+                        else:
+                            R.finding(rule, fn, "`%s`" % expr_text(x), "the count read() returned is compared with `%s`: a short read (a pipe or "
+                                      "terminal handing out what it has) is taken for something it is not -- the end of the input is a count "
+                                      "of 0 only, so the output depends on how the input was cut into reads" % expr_text(other), x)
+    R.floor(rule, "tests of the count read() returned in prchunk.c", n, 3)
+
+
 def check_rewind(P, R):
     """RF-rewind: a fill starts a new window (the line count is zeroed on entry); the reader's position in the window must be zeroed
     on every path that hands the window out (returns 0), or the first lines of the new window are skipped"""
@@ -649,6 +699,7 @@ def check(P, R, tier):
     c10.check_finder_start(P, R, "RF4-start")
     check_rewind(P, R)
     check_eof(P, R)
+    check_shortread(P, R)
     check_terminated(P, R)
     check_window(P, R)
     check_pairing(P, R)
